@@ -148,6 +148,8 @@ func init() {
 			c.runRoulette("ROULETTE", append(c.libPkgs()[3:4:4], c.fixturePkg("u")))
 			c.floor("ROULETTE", 0)
 			c.runSamplerPair("SAMPLERPAIR", c.libPkgs()[3:4])
+			c.runThresholds("THRESH", append(c.libPkgs()[3:4:4], c.fixturePkg("u")), nil)
+			c.floor("THRESH", 0)
 			c.runSamplerPairFuncs("SAMPLERPAIR", c.libPkgs()[3:4])
 			c.floor("SAMPLERPAIR", 3)
 			// area-proportional selection of a triangle / sub-light
